@@ -197,26 +197,23 @@ def array_ufunc(ufunc, method, inputs, kwargs):
         inputs = [deregulate(x) for x in inputs]
 
         if all(
-            (
-                isinstance(x, ak.layout.NumpyArray)
-                and not (x.format.upper().startswith("M"))
-            )
+            isinstance(x, ak.layout.NumpyArray)
             or not isinstance(x, (ak.layout.Content, ak.partition.PartitionedArray))
             for x in inputs
         ):
             nplike = ak.nplike.of(*inputs)
-            result = getattr(ufunc, method)(
-                *[nplike.asarray(x) for x in inputs], **kwargs
-            )
-            return lambda: (ak.operations.convert.from_numpy(result, highlevel=False),)
-        elif all(
-            isinstance(x, ak.layout.NumpyArray) and (x.format.upper().startswith("M"))
-            for x in inputs
-        ):
-            nplike = ak.nplike.of(*inputs)
-            result = getattr(ufunc, method)(
-                *[nplike.asarray(x.view_int64).view(x.format) for x in inputs], **kwargs
-            )
+
+            def tonumpy(x):
+                if isinstance(x, ak.layout.NumpyArray) and x.format.upper().startswith(
+                    "M"
+                ):
+                    # date-times and time differences do not pass through the
+                    # buffer protocol
+                    return nplike.asarray(x.view_int64).view(x.format)
+                else:
+                    return nplike.asarray(x)
+
+            result = getattr(ufunc, method)(*[tonumpy(x) for x in inputs], **kwargs)
             return lambda: (ak.operations.convert.from_numpy(result, highlevel=False),)
 
         for x in inputs:
